@@ -357,7 +357,21 @@ func (m *VM) step(i int, op *Op) *Rec {
 			skip("no token/block")
 			break
 		}
-		body = func() { m.doAppend(rec, op, i, t, k.Blk, &k.Content) }
+		body = func() {
+			m.doAppend(rec, op, i, t, k.Blk, &k.Content)
+			if k.Parent != op.A {
+				// a block built for one token, appended to another: refused when their symbols overlap;
+				// when it goes through, its symbol indexes mean something else there, so what the
+				// resulting token says is not known to the harness (treated like foreign content)
+				m.Probe("block_appended_to_a_token_it_was_not_built_for")
+				if rec.Class == "overlap" {
+					m.Probe("append_refused_symbol_overlap")
+				}
+				if nt := m.Tok(op.Out); nt != nil && nt.Created == i {
+					nt.Hostile = true
+				}
+			}
+		}
 	case "attenuate": // compound: CreateBlock + add + Build + Append
 		t := m.Tok(op.A)
 		if t == nil || op.Blk == nil || op.Ent == nil {
